@@ -746,6 +746,9 @@ fn enc_boundary_scenario(rec: &mut Rec, rng: &mut Rng, secp: &Secp, msgs: Vec<EM
 fn custom(ty: u16, len: usize, seed: u64) -> Vec<u8> { let mut v = ty.to_be_bytes().to_vec(); v.extend(gen_payload(len, seed)); v }
 fn known_ty(rng: &mut Rng) -> u16 { 32768 + 4 * rng.below(8000) as u16 + rng.below(2) as u16 }
 
+#[path = "c15/gate.rs"]
+mod gate;
+
 fn run_peer(args: &Args) {
 	let mut rec = Rec::new(&args.out, "c15peer");
 	let mut rng = Rng::new(args.seed ^ 0xc15);
@@ -778,6 +781,9 @@ fn run_peer(args: &Args) {
 		let seq = vec![g(256, 10, &mut rng), em_init(), g(256, 0, &mut rng), em_ping(2, 0), g(257, 63, &mut rng), g(258, 30, &mut rng), em_custom(k1, 3, 1)];
 		enc_boundary_scenario(&mut rec, &mut rng, &secp, seq, "size:undecodable-gossip-warning", hi);
 	}
+
+	// (0b) the Init gate: every wire message type as the first post-handshake message / right after Init, recording handlers
+	gate::gate_scenarios(&mut rec, &mut rng, &secp, if args.thorough { 12 } else { 2 });
 
 	// (1) two PeerManagers: identity delivery under fragmentation / coalescing / back-pressure
 	let (n_long, n_runs, n_small) = if args.thorough { (6000, 400, 300) } else { (1300, 60, 120) };
